@@ -1319,4 +1319,128 @@ theorem sgn_usign_mul (s X : Int) (hs : s = 1 ∨ s = -1) : sgn (s * sgn X) = sg
   · rw [h, one_mul, one_mul, sgn_sgn]
   · rw [h, neg_one_mul, neg_one_mul, sgn_neg_eq, sgn_sgn, sgn_neg_eq]
 
+/-! ### mpf against one limb; truncation to an integer -/
+
+theorem list_split_last : ∀ (l : List Nat), l ≠ [] → l = l.take (l.length - 1) ++ [l.getD (l.length - 1) 0]
+  | [], h => absurd rfl h
+  | [x], _ => by simp
+  | x :: y :: ys, _ => by
+    have ih := list_split_last (y :: ys) (by simp)
+    simp only [List.length_cons, Nat.add_sub_cancel] at ih ⊢
+    rw [List.take_succ_cons, List.getD_cons_succ, List.cons_append, ← ih]
+
+theorem stripLow_len_gt_one : ∀ (init : List Nat) (top : Nat), top ≠ 0 →
+    ((stripLow (init ++ [top])).length > 1 ↔ val init ≠ 0)
+  | [], top, h => by simp [stripLow, h]
+  | x :: xs, top, h => by
+    rw [List.cons_append, stripLow_cons]
+    by_cases hx : x = 0
+    · rw [if_pos hx, stripLow_len_gt_one xs top h, val_cons, hx]
+      have := B_pos
+      constructor
+      · intro h1 h2; apply h1
+        rcases Nat.eq_zero_or_pos (val xs) with z | p
+        · exact z
+        · have : 0 < B * val xs := Nat.mul_pos B_pos p; omega
+      · intro h1 h2; apply h1; rw [h2]; simp
+    · rw [if_neg hx, val_cons]
+      simp only [List.length_cons, List.length_append, List.length_nil]
+      constructor
+      · intro _; omega
+      · intro _; omega
+
+/-- steps 2-4 of mpf_cmp_ui / mpf_cmp_si: |u| against a non-zero one-limb value on a common integer scale -/
+theorem mpf_cmp_limb1_spec (u : F) (hu : u.wf) (vv : Nat) (hv0 : 0 < vv) (hvB : vv < B) (usign : Int) :
+    mpf_cmp_limb1 u vv usign =
+      usign * sgn ((val u.d : Int) * ((B ^ (u.lowExp - min u.lowExp 0).toNat : Nat) : Int)
+        - (vv : Int) * ((B ^ (0 - min u.lowExp 0).toNat : Nat) : Int)) := by
+  obtain ⟨u0, u1, u2⟩ := F.wf_bounds hu
+  have ul := hu.1
+  have cast_lt : ∀ {a b : Nat}, a < b → (a : Int) - b < 0 := fun h => by omega
+  have cast_gt : ∀ {a b : Nat}, b < a → (0 : Int) < (a : Int) - b := fun h => by omega
+  unfold mpf_cmp_limb1
+  dsimp only
+  by_cases g : u.exp > 1
+  · rw [if_pos g]
+    have hs : u.size ≠ 0 := fun h => by have := hu.2.2.2 h; omega
+    have hu1 := u1 hs
+    have hexp : 1 + (0 - min u.lowExp 0).toNat ≤ (u.size.natAbs - 1) + (u.lowExp - min u.lowExp 0).toNat := by
+      unfold F.lowExp; omega
+    have h1 : vv * B ^ (0 - min u.lowExp 0).toNat < val u.d * B ^ (u.lowExp - min u.lowExp 0).toNat := by
+      calc vv * B ^ (0 - min u.lowExp 0).toNat
+          < B * B ^ (0 - min u.lowExp 0).toNat := Nat.mul_lt_mul_of_pos_right hvB (Bpow_pos _)
+        _ = B ^ (1 + (0 - min u.lowExp 0).toNat) := by rw [pow_add, pow_one]
+        _ ≤ B ^ ((u.size.natAbs - 1) + (u.lowExp - min u.lowExp 0).toNat) := pow_le_pow_B hexp
+        _ = B ^ (u.size.natAbs - 1) * B ^ (u.lowExp - min u.lowExp 0).toNat := by rw [pow_add]
+        _ ≤ val u.d * B ^ (u.lowExp - min u.lowExp 0).toNat := Nat.mul_le_mul_right _ hu1
+    have := cast_gt h1
+    push_cast at this ⊢
+    rw [sgn_pos this, mul_one]
+  · rw [if_neg g]
+    by_cases g2 : u.exp < 1
+    · rw [if_pos g2]
+      have hexp : u.size.natAbs + (u.lowExp - min u.lowExp 0).toNat ≤ (0 - min u.lowExp 0).toNat := by
+        unfold F.lowExp; omega
+      have h1 : val u.d * B ^ (u.lowExp - min u.lowExp 0).toNat < vv * B ^ (0 - min u.lowExp 0).toNat := by
+        calc val u.d * B ^ (u.lowExp - min u.lowExp 0).toNat
+            < B ^ u.size.natAbs * B ^ (u.lowExp - min u.lowExp 0).toNat := Nat.mul_lt_mul_of_pos_right u2 (Bpow_pos _)
+          _ = B ^ (u.size.natAbs + (u.lowExp - min u.lowExp 0).toNat) := by rw [pow_add]
+          _ ≤ B ^ (0 - min u.lowExp 0).toNat := pow_le_pow_B hexp
+          _ = 1 * B ^ (0 - min u.lowExp 0).toNat := by rw [Nat.one_mul]
+          _ ≤ vv * B ^ (0 - min u.lowExp 0).toNat := Nat.mul_le_mul_right _ hv0
+      have := cast_lt h1
+      push_cast at this ⊢
+      rw [sgn_neg this]; ring
+    · rw [if_neg g2]
+      have hE : u.exp = 1 := by omega
+      have hs : u.size ≠ 0 := fun h => by have := hu.2.2.2 h; omega
+      have hne : u.d ≠ [] := by intro e; rw [e] at ul; simp at ul; omega
+      have ea : (u.lowExp - min u.lowExp 0).toNat = 0 := by unfold F.lowExp; omega
+      have eb : (0 - min u.lowExp 0).toNat = u.d.length - 1 := by unfold F.lowExp; omega
+      rw [ea, eb, pow_zero, Nat.cast_one, mul_one, ← ul]
+      obtain ⟨lo, e, b⟩ := val_top_split u.d hu.2.1 hne
+      have tnz := top_ne_zero hne hu.2.2.1
+      have hsplit := list_split_last u.d hne
+      have hlo : lo = val (u.d.take (u.d.length - 1)) := by
+        have e2 : val u.d = val (u.d.take (u.d.length - 1)) + B ^ (u.d.length - 1) * u.d.getD (u.d.length - 1) 0 := by
+          conv_lhs => rw [hsplit]
+          rw [val_append, List.length_take, Nat.min_eq_left (by omega)]
+          simp
+        rw [e] at e2
+        exact Nat.add_right_cancel e2
+      have hstrip : (stripLow u.d).length > 1 ↔ lo ≠ 0 := by
+        rw [hlo]; conv_lhs => rw [hsplit]
+        exact stripLow_len_gt_one _ _ tnz
+      rw [e]
+      generalize u.d.getD (u.d.length - 1) 0 = top at *
+      generalize hP : B ^ (u.d.length - 1) = P at *
+      have hPp : (0 : Int) < P := by
+        have : 0 < P := by rw [← hP]; exact Bpow_pos _
+        exact_mod_cast this
+      have hlt : (lo : Int) < P := by exact_mod_cast b
+      have hlo0 : (0 : Int) ≤ lo := by positivity
+      push_cast
+      have T : ((lo : Int) + P * top) - vv * P = lo + P * (top - vv) := by ring
+      rw [T]
+      by_cases c1 : top > vv
+      · rw [if_pos c1]
+        have : (P : Int) * 1 ≤ P * (top - vv) := mul_le_mul_of_nonneg_left (by omega) (le_of_lt hPp)
+        rw [sgn_pos (by linarith), mul_one]
+      · rw [if_neg c1]
+        by_cases c2 : top < vv
+        · rw [if_pos c2]
+          have : (P : Int) * (top - vv) ≤ P * (-1) := mul_le_mul_of_nonneg_left (by omega) (le_of_lt hPp)
+          rw [sgn_neg (by linarith)]; ring
+        · rw [if_neg c2]
+          have : top = vv := by omega
+          subst this
+          simp only [sub_self, mul_zero, add_zero]
+          by_cases c3 : (stripLow u.d).length > 1
+          · rw [if_pos c3]
+            have := hstrip.mp c3
+            rw [sgn_pos (by omega), mul_one]
+          · rw [if_neg c3]
+            have : lo = 0 := by by_contra h; exact c3 (hstrip.mpr h)
+            subst this; simp [sgn_zero]
+
 end Mpir.Conv
